@@ -267,6 +267,16 @@ def fixed_templates():
         {'name': 'Doc', 'pk': 'auto', 'attrs': [S('title', 'str', True), S('k', unique=True), C('parts', 'Part', 'doc'),
                                                 C('refs', 'Doc', 'refd'), C('refd', 'Doc', 'refs')]},
         {'name': 'Part', 'pk': 'auto', 'attrs': [S('n'), R('doc', 'Doc', 'parts', True)]}]})
+    # composite primary key declared in another order than its attributes; relationship attributes inside primary keys
+    # (one-to-one key, association entity); a lazy many-to-one reference
+    T.append({'name': 'pkref', 'entities': [
+        {'name': 'Slot', 'pk': ['room', 'day'], 'attrs': [S('day', required=True), S('room', 'str', True), S('note', 'str'),
+                                                           C('bookings', 'Booking', 'slot')]},
+        {'name': 'Person', 'pk': ['id'], 'attrs': [S('id', required=True), S('name', 'str'), R('card', 'Card', 'person'),
+                                                     C('bookings', 'Booking', 'person'), C('notes', 'Note', 'person')]},
+        {'name': 'Card', 'pk': ['person'], 'attrs': [R('person', 'Person', 'card', True), S('num')]},
+        {'name': 'Booking', 'pk': ['person', 'slot'], 'attrs': [R('person', 'Person', 'bookings', True), R('slot', 'Slot', 'bookings', True), S('seats')]},
+        {'name': 'Note', 'pk': ['id'], 'attrs': [S('id', required=True), S('text', 'str'), R('person', 'Person', 'notes', lazy=True)]}]})
     # several plain attributes per entity, an entity reachable as an unloaded reference that also holds a one-to-one column
     T.append({'name': 'rich', 'entities': [
         {'name': 'Owner', 'pk': ['id'], 'attrs': [S('id', required=True), S('name', 'str', True), S('age'),
